@@ -287,7 +287,7 @@ package sftp
 
 //@ func (*File).writeAt
 //@   property C01, C13
-//@   requires fileOK(f)
+//@   requires fileOK(f) && off >= 0 && off <= 0x3fffffffffffffff && len(b) <= 0x3fffffffffffffff
 //@   loop 1 invariant 0 <= written && written <= len(b) && fileOK(f) && chunkSize == f.c.maxPacket
 //@   assert before call (*File).writeChunkAt#2: arg3 == off + int64(written) && len(arg2) >= 1 && len(arg2) <= f.c.maxPacket && arg2 == b[written:written+len(arg2)] 
 //@   ensures f.c.useConcurrentWrites == false || len(b) <= f.c.maxPacket ==> 0 <= written && written <= len(b)
@@ -311,6 +311,11 @@ package sftp
 //@ ghost var rem uint32
 
 //@ func (*Client).ReadDirContext
+//@   results entries, err
+//@   vars k int
+//@   ensures 0 <= k && k < len(entries) ==> entries[k] != nil
+//@   loop 1 invariant 0 <= k && k < len(entries) ==> entries[k] != nil
+//@   loop 2 invariant 0 <= k && k < len(entries) ==> entries[k] != nil
 //@   property C20, C16, C03
 //@   requires connOK(c)
 //@   update after call (*Client).opendir#1: ghost.rem = 0
@@ -330,6 +335,8 @@ package sftp
 //@   requires ctx != nil
 
 //@ func (*Client).Lstat
+//@   results fi, err
+//@   ensures err == nil ==> fi != nil
 //@   property C20, C03
 //@   requires connOK(c)
 
@@ -690,8 +697,23 @@ package sftp
 //@   ensures err == nil ==> result.Code == sshFxOk
 
 //@ func handlePacket
+//@   update after call (*Server).toLocalPath#*: ghost.lp2 = ghost.lp1
+//@   update after call (*Server).toLocalPath#*: ghost.lpa2 = ghost.lpa1
+//@   update after call (*Server).toLocalPath#*: ghost.lp1 = ret
+//@   update after call (*Server).toLocalPath#*: ghost.lpa1 = arg1
+//@   assert before call os.Stat#1: arg0 == ghost.lp1 && ghost.lpa1 == p.Path
+//@   assert before call (*Server).lstat#1: arg1 == ghost.lp1 && ghost.lpa1 == p.Path
+//@   assert before call os.Mkdir#1: arg0 == ghost.lp1 && ghost.lpa1 == p.Path && arg1 == 0755
+//@   assert before call os.Remove#1: arg0 == ghost.lp1 && ghost.lpa1 == p.Path
+//@   assert before call os.Remove#2: arg0 == ghost.lp1 && ghost.lpa1 == p.Filename
+//@   assert before call os.Rename#1: arg0 == ghost.lp2 && ghost.lpa2 == p.Oldpath && arg1 == ghost.lp1 && ghost.lpa1 == p.Newpath
+//@   assert before call os.Symlink#1: arg0 == ghost.lp2 && ghost.lpa2 == p.Targetpath && arg1 == ghost.lp1 && ghost.lpa1 == p.Linkpath
+//@   assert before call os.Readlink#1: arg0 == ghost.lp1 && ghost.lpa1 == p.Path
+//@   assert before call filepath.Abs#1: arg0 == ghost.lp1 && ghost.lpa1 == p.Path
+//@   assert before call (*Server).stat#1: arg1 == ghost.lp1 && ghost.lpa1 == p.Path
+//@   assert before call (*sshFxpOpenPacket).respond#1: arg0.Path == p.Path && arg0.Pflags == sshFxfRead && arg0.Flags == 0
 //@   assert before call (*sshFxpReadPacket).getDataSlice#1: arg1 == s.pktMgr.alloc && arg2 == old(p.orderid) && arg3 == s.maxTxPacket
-//@   property C07, C02, C09, C18, C15
+//@   property C07, C02, C09, C18, C15, C05
 //@   requires serverOK(s) && p.requestPacket != nil && reqType(p.requestPacket) && extOK(p.requestPacket)
 //@   assert before call (*packetManager).readyPacket#1: arg1.orderid == p.orderid
 //@   assert before call (*packetManager).readyPacket#1: arg1.responsePacket != nil
@@ -736,7 +758,15 @@ package sftp
 //@   modifies ghost.fsWrites
 
 //@ func (*sshFxpOpenPacket).respond
-//@   property C07, C02, C09
+//@   update after call (*Server).toLocalPath#*: ghost.lp2 = ghost.lp1
+//@   update after call (*Server).toLocalPath#*: ghost.lpa2 = ghost.lpa1
+//@   update after call (*Server).toLocalPath#*: ghost.lp1 = ret
+//@   update after call (*Server).toLocalPath#*: ghost.lpa1 = arg1
+//@   assert before call (*Server).openfile#1: arg1 == ghost.lp1 && ghost.lpa1 == p.Path
+//@   assert before call (*Server).openfile#1: (arg2 & os.O_CREATE != 0 <==> p.Pflags & sshFxfCreat != 0) && (arg2 & os.O_TRUNC != 0 <==> p.Pflags & sshFxfTrunc != 0) && (arg2 & os.O_EXCL != 0 <==> p.Pflags & sshFxfExcl != 0) && arg2 & os.O_APPEND == 0
+//@   assert before call (*Server).openfile#1: (p.Pflags & sshFxfRead != 0 && p.Pflags & sshFxfWrite != 0 ==> arg2 & 3 == os.O_RDWR) && (p.Pflags & sshFxfRead == 0 ==> arg2 & 3 == os.O_WRONLY) && (p.Pflags & sshFxfWrite == 0 ==> arg2 & 3 == os.O_RDONLY)
+//@   assert before call (*Server).openfile#1: p.Flags & sshFileXferAttrPermissions == 0 ==> arg3 == 0644
+//@   property C07, C02, C09, C05
 //@   requires serverOK(svr)
 //@   ensures harmlessOpen(p.Pflags) ==> ghost.fsWrites == old(ghost.fsWrites)
 //@   ensures svr.readOnly == old(svr.readOnly)
@@ -760,7 +790,15 @@ package sftp
 //@ ghost var lastErrNil bool
 
 //@ func (*sshFxpSetstatPacket).respond
-//@   property C07, C02, C17
+//@   update after call (*Server).toLocalPath#*: ghost.lp2 = ghost.lp1
+//@   update after call (*Server).toLocalPath#*: ghost.lpa2 = ghost.lpa1
+//@   update after call (*Server).toLocalPath#*: ghost.lp1 = ret
+//@   update after call (*Server).toLocalPath#*: ghost.lpa1 = arg1
+//@   assert before call os.Truncate#1: path == ghost.lp1 && ghost.lpa1 == p.Path
+//@   assert before call os.Chmod#1: path == ghost.lp1 && ghost.lpa1 == p.Path
+//@   assert before call os.Chown#1: path == ghost.lp1 && ghost.lpa1 == p.Path
+//@   assert before call os.Chtimes#1: path == ghost.lp1 && ghost.lpa1 == p.Path
+//@   property C07, C02, C17, C05
 //@   requires serverOK(svr)
 //@   update before call (*sshFxpSetstatPacket).unmarshalFileStat#1: ghost.didTrunc = false
 //@   update before call (*sshFxpSetstatPacket).unmarshalFileStat#1: ghost.didChmod = false
@@ -844,7 +882,12 @@ package sftp
 //@   modifies nothing
 
 //@ func (*sshFxpExtendedPacketStatVFS).respond
-//@   property C07, C02, C09
+//@   update after call (*Server).toLocalPath#*: ghost.lp2 = ghost.lp1
+//@   update after call (*Server).toLocalPath#*: ghost.lpa2 = ghost.lpa1
+//@   update after call (*Server).toLocalPath#*: ghost.lp1 = ret
+//@   update after call (*Server).toLocalPath#*: ghost.lpa1 = arg1
+//@   assert before call getStatVFSForPath#1: arg0 == ghost.lp1 && ghost.lpa1 == p.Path
+//@   property C07, C02, C09, C05
 //@   requires serverOK(svr)
 //@   ensures ghost.fsWrites == old(ghost.fsWrites)
 //@   ensures svr.readOnly == old(svr.readOnly)
@@ -853,7 +896,12 @@ package sftp
 //@   ensures serverOK(svr)
 
 //@ func (*sshFxpExtendedPacketPosixRename).respond
-//@   property C07, C02
+//@   update after call (*Server).toLocalPath#*: ghost.lp2 = ghost.lp1
+//@   update after call (*Server).toLocalPath#*: ghost.lpa2 = ghost.lpa1
+//@   update after call (*Server).toLocalPath#*: ghost.lp1 = ret
+//@   update after call (*Server).toLocalPath#*: ghost.lpa1 = arg1
+//@   assert before call os.Rename#1: arg0 == ghost.lp2 && ghost.lpa2 == p.Oldpath && arg1 == ghost.lp1 && ghost.lpa1 == p.Newpath
+//@   property C07, C02, C05
 //@   requires serverOK(s)
 //@   ensures s.readOnly == old(s.readOnly)
 //@   ensures result != nil && result.id() == p.ID
@@ -861,7 +909,12 @@ package sftp
 //@   ensures serverOK(s)
 
 //@ func (*sshFxpExtendedPacketHardlink).respond
-//@   property C07, C02
+//@   update after call (*Server).toLocalPath#*: ghost.lp2 = ghost.lp1
+//@   update after call (*Server).toLocalPath#*: ghost.lpa2 = ghost.lpa1
+//@   update after call (*Server).toLocalPath#*: ghost.lp1 = ret
+//@   update after call (*Server).toLocalPath#*: ghost.lpa1 = arg1
+//@   assert before call os.Link#1: arg0 == ghost.lp2 && ghost.lpa2 == p.Oldpath && arg1 == ghost.lp1 && ghost.lpa1 == p.Newpath
+//@   property C07, C02, C05
 //@   requires serverOK(s)
 //@   ensures s.readOnly == old(s.readOnly)
 //@   ensures result != nil && result.id() == p.ID
@@ -1351,6 +1404,13 @@ package sftp
 // C02 (order) and C18 (release after send): the controller's queues
 
 //@ ghost var sentOrder uint32
+//@ ghost var lp1 string
+//@ ghost var lp2 string
+//@ ghost var lpa1 string
+//@ ghost var lpa2 string
+// (C05 path discipline: lp1 / lp2 are the results of the last / last-but-one toLocalPath call of the executing function,
+//  lpa1 / lpa2 the arguments they were applied to. Every os call that takes a path is asserted to receive the
+//  working-directory resolution of the path field the request carries.)
 //@ ghost var relOrder uint32
 //@ ghost var rxOrder uint32
 
@@ -1787,6 +1847,9 @@ package sftp
 
 //@ func (*Server).toLocalPath
 //@   property C07, C10, C05
+//@   requires s != nil
+//@   ensures s.workDir == "" ==> result == p
+//@   modifies nothing
 
 //@ func (*conn).Close
 //@   property C07, C04
@@ -1828,3 +1891,65 @@ package sftp
 //@   ensures forall(j, 0 <= j && j < len(v) ==> result[len(b) + 4 + j] == v[j])
 //@   ensures forall(i, 0 <= i && i < len(b) ==> result[i] == old(b[i]))
 //@   modifies bytes
+
+// ---------------------------------------------------------------------------
+// C05: client-side composites (client.go, match.go). The server half of C05 is the path discipline asserted in
+// handlePacket and the respond methods; the error categories are the statusFromError / normaliseError contracts.
+
+//@ func (*Client).MkdirAll
+//@   property C05
+//@   requires connOK(c)
+//@   assert before call (*Client).Stat#1: arg1 == path
+//@   assert before call (*Client).MkdirAll#1: len(arg1) < len(path) && arg0 == c
+//@   assert before call (*Client).Mkdir#1: arg1 == path
+//@   assert before call (*Client).Lstat#1: arg1 == path
+//@   loop 1 invariant 0 <= i && i <= len(path)
+//@   loop 2 invariant 0 <= j && j <= i && i <= len(path)
+// (the existence probe of the fast path follows symbolic links, like os.MkdirAll; the recursion is on a proper prefix)
+
+//@ func (*Client).RemoveAll
+//@   property C05
+//@   requires connOK(c)
+//@   assert before call (*Client).Stat#1: arg1 == path
+
+//@ func (*Client).Remove
+//@   property C05
+//@   requires connOK(c)
+//@   assert before call (*Client).removeFile#1: arg1 == path
+//@   assert before call (*Client).RemoveDirectory#1: arg1 == path
+//@   ensures old(true) ==> true
+
+//@ func (*Client).glob
+//@   property C05
+//@   results m, e
+//@   requires connOK(c)
+//@   ensures len(m) >= len(matches)
+//@   ensures e == nil || e == ErrBadPattern
+//@   loop 1 invariant len(m) >= len(matches)
+// (matches found so far are only ever extended)
+
+//@ func (*Client).Glob
+//@   property C05
+//@   requires connOK(c)
+//@   assert before call (*Client).glob#2: arg3 == matches && arg2 == file
+//@   assert before call (*Client).glob#1: arg1 == dir && arg2 == file && len(arg3) == 0
+//@   loop 1 invariant connOK(c)
+// (the accumulator is threaded through every matched directory)
+
+//@ func (*Client).Stat
+//@   property C05, C20
+//@   results fi, err
+//@   requires connOK(c)
+//@   ensures err == nil ==> fi != nil
+
+//@ func (*Client).ReadDir
+//@   property C05, C20, C16
+//@   results entries, err
+//@   requires connOK(c)
+//@   ensures forall(k, 0 <= k && k < len(entries) ==> entries[k] != nil)
+
+//@ func path.Match
+//@   trusted
+//@   results matched, err
+//@   ensures err == nil || err == path.ErrBadPattern
+//@   modifies nothing
